@@ -92,6 +92,13 @@ def cases(seed, tier):
         c["script"][ci]["inject"] = inj
         c["script"][ci]["decisions"] = [{"do": "resume"} for _ in range(5)]
         c["script"][ci]["final"] = "resume"
+        if rng.random() < 0.35:
+            # the suspender's own plans re-configure the shared detector (lower the gain while the beam is away ...):
+            # a configure executed between an interrupted first reading of the device and its re-execution
+            dev0 = streams["primary"][0]
+            key0 = "exposure" if specs[dev0]["kind"] in ("det", "pdet") else "velocity"
+            which = rng.choice(["pre_plan", "post_plan"])
+            c["suspenders"]["s0"][which] = [{"op": "msg", "cmd": "configure", "obj": dev0, "kw": {key0: 50.0 + j}, "site": f"sus-{which}"}]
         yield c
     # a subscriber (registered after the recorder) fails on one of the descriptors - possibly one that 'configure'
     # re-issues; the plan copes with the error at that message and goes on taking data
